@@ -32,7 +32,10 @@ EXTRA = {
     "assumptions": c16.EXTRA["assumptions"] + [
         "node identity in make_location_trees is the load identifier (as in the code); the mtime part is dropped, "
         "so two versions of one path within one load are not exercised",
-        "table names in the generated sets are unique, which is how a yielded table is matched to its ground truth",
+        "a fifth of the generated tables reuse an earlier table name; a yielded table is matched to its ground truth "
+        "by its first column name, which is unique over the input set",
+        "outside the generated domain (reported defect, not judged): read_excel(stream, origin=\"text\") drops the "
+        "origin text although the docstring promises to keep it",
     ],
     "explanation": "Props/C18.lean: origin_file_sheet_row (reader glue + C03 origin rows: the stamped row is the index "
                    "of the `**` row), history_is_include_path (every step present at its source, chain connected, "
@@ -333,7 +336,15 @@ def gen_cases(tier, seed, search=False):
         yield idx, environment(crng, shift_columns(crng, case))
         idx += 1
     # size ladder: origin rows just above 1024, 4096, 8192 (quick) and more rungs in thorough
-    rungs = [1025, 4097, 8193] if not thorough else [63, 64, 129, 257, 1000, 1023, 1024, 1025, 2049, 4095, 4096,
+    # deep and large: an include chain of 60 files (load history > 16 steps, location forest > 48 nodes)
+    crng = make_rng(seed, "C18:deep")
+    case = c16.build_case(crng, 60, {(i, i + 1) for i in range(59)}, folders=crng.choice(c16.FOLDER_LAYOUTS[1:4]),
+                          kinds=["csv"] * 60, root_folder=True, roots_mode="file", start_pattern=None,
+                          tracker="collecting", allow_include=True, mem=False, rich=False)
+    case["gen"] = {"tall": 0, "deep": 60}
+    yield idx, case
+    idx += 1
+    rungs = [1025, 8193, 70001] if not thorough else [63, 64, 129, 257, 1000, 1023, 1024, 1025, 2049, 4095, 4096,
                                                       4097, 8191, 8192, 8193, 70001]
     for ri, n in enumerate(rungs):
         kind = ["csv", "xlsx", "csv"][ri % 3]
@@ -719,7 +730,7 @@ def one_case(case, root, out, want_model, order, m=None, shared=None, audit_pref
     table_outs = [o for o in impl["out"] if o["ty"] == "TABLE"]
     res = {"m": m, "impl": impl, "ntables": len(tables), "tables": tables, "table_outs": table_outs}
     if want_model:
-        res["load_op"] = c16.model_op(case, m, nodes, table, order)
+        res["load_op"] = c16.model_op(case, m, nodes, table, order, impl["reads"], impl["out"])
         res["tree_op"] = {"op": "location_trees",
                           "tables": [{"loc": o["loc"], "sheet": o["sheet"], "row": o["row"], "history": o["history"]}
                                      for o in impl["out"] if o["ty"] == "TABLE"]}
